@@ -103,8 +103,11 @@ func TestC10Standin(t *testing.T) {
 	for h := 0; h < nHist; h++ {
 		d := makeTempdirs(t)
 		mgr := makeManager(t, d)
-		importSomePackets(t, mgr, t1, "pcapProcessed")
-		nStreams := uint64(4)
+		nStreams := uint64(0)
+		if h%3 != 2 {
+			importSomePackets(t, mgr, t1, "pcapProcessed")
+			nStreams = 4
+		} // else: the history starts on an empty service (views opened before the first import)
 		tags := map[string]bool{}
 		var ops []string
 		var views []*c10View
@@ -115,7 +118,13 @@ func TestC10Standin(t *testing.T) {
 			}
 		}
 		for step := 0; step < histLen; step++ {
-			switch rng.Intn(9) {
+			op := rng.Intn(9)
+			if nStreams == 0 && step == 0 {
+				op = 7 // a view of the empty service
+			} else if nStreams == 0 && (op == 0 || op == 2 || op == 3) {
+				op = 5 // marks need a stream: import first
+			}
+			switch op {
 			case 0:
 				nm := []string{"mark/m", "mark/n"}[rng.Intn(2)]
 				if !tags[nm] {
